@@ -93,6 +93,98 @@ theorem decode_odd (c : UInt8) : hexDecode [c] = none := rfl
 theorem decode_bad_char (a b : UInt8) (rest : Bytes) (h : hexVal a = none ∨ hexVal b = none) : hexDecode (a :: b :: rest) = none := by
   rcases h with h | h <;> simp [hexDecode, h]
 
+
+theorem hexVal_lt (c : UInt8) (x : Nat) (h : hexVal c = some x) : x < 16 := by
+  unfold hexVal at h
+  split at h
+  · injection h with h; omega
+  · split at h
+    · injection h with h; omega
+    · split at h
+      · injection h with h; omega
+      · cases h
+
+/-- a successful decode has consumed exactly two characters per byte -/
+theorem decode_length : ∀ (s b : Bytes), hexDecode s = some b → s.length = 2 * b.length
+  | [], b, h => by simp [hexDecode] at h; subst h; rfl
+  | [_], b, h => by simp [hexDecode] at h
+  | a :: c :: rest, b, h => by
+    simp only [hexDecode] at h
+    split at h
+    · rename_i x y r _ _ hr
+      injection h with h; subst h
+      have := decode_length rest r hr
+      simp only [List.length_cons]; omega
+    · cases h
+
+/-- **every odd-length string is refused**, whatever its characters -/
+theorem decode_odd_length (s : Bytes) (h : s.length % 2 = 1) : hexDecode s = none := by
+  cases hd : hexDecode s with
+  | none => rfl
+  | some b => have := decode_length s b hd; omega
+
+/-- a successful decode means every character was a hex digit -/
+theorem decode_all_hex : ∀ (s b : Bytes), hexDecode s = some b → ∀ c ∈ s, (hexVal c).isSome
+  | [], _, _ => by simp
+  | [_], b, h => by simp [hexDecode] at h
+  | a :: c :: rest, b, h => by
+    simp only [hexDecode] at h
+    split at h
+    · rename_i x y r ha hc hr
+      intro d hd
+      simp only [List.mem_cons] at hd
+      rcases hd with rfl | rfl | hd
+      · simp [ha]
+      · simp [hc]
+      · exact decode_all_hex rest r hr d hd
+    · cases h
+
+/-- **a non-hex character at any position makes the decode fail** (not only at the head) -/
+theorem decode_bad_char_anywhere (s : Bytes) (c : UInt8) (hc : c ∈ s) (hv : hexVal c = none) : hexDecode s = none := by
+  cases hd : hexDecode s with
+  | none => rfl
+  | some b => have := decode_all_hex s b hd c hc; simp [hv] at this
+
+/-- the decoder is case-insensitive and otherwise injective: two strings that decode to the same bytes have the
+same length and the same digit values at every position -/
+theorem decode_inj_vals : ∀ (s t b : Bytes), hexDecode s = some b → hexDecode t = some b → s.map hexVal = t.map hexVal
+  | [], t, b, hs, ht => by
+    simp [hexDecode] at hs; subst hs
+    have := decode_length t [] ht
+    simp at this; subst this; rfl
+  | [_], _, _, hs, _ => by simp [hexDecode] at hs
+  | a :: c :: rest, t, b, hs, ht => by
+    simp only [hexDecode] at hs
+    split at hs
+    · rename_i x y r ha hc hr
+      injection hs with hs; subst hs
+      match t, ht with
+      | [], ht => simp [hexDecode] at ht
+      | [_], ht => simp [hexDecode] at ht
+      | a' :: c' :: rest', ht =>
+        simp only [hexDecode] at ht
+        split at ht
+        · rename_i x' y' r' ha' hc' hr'
+          injection ht with ht
+          injection ht with h1 h2
+          subst h2
+          have hx := hexVal_lt _ _ ha
+          have hy := hexVal_lt _ _ hc
+          have hx' := hexVal_lt _ _ ha'
+          have hy' := hexVal_lt _ _ hc'
+          have hn : (x' * 16 + y') % 256 = (x * 16 + y) % 256 := by
+            have := congrArg UInt8.toNat h1
+            simpa [UInt8.ofNat, UInt8.toNat] using this
+          have hxy : x' = x ∧ y' = y := by omega
+          have ih := decode_inj_vals rest rest' r' hr hr'
+          simp only [List.map_cons, ha, hc, ha', hc', ih, hxy.1, hxy.2]
+        · cases ht
+    · cases hs
+
+example : hexDecode [48, 49, 50] = none := decode_odd_length _ rfl
+example : hexDecode [48, 49, 103, 50] = none := decode_bad_char_anywhere _ 103 (by decide) (by decide)
+example : hexDecode [65, 98] = some [0xab] ∧ hexDecode [97, 66] = some [0xab] := by decide
+
 -- non-vacuity
 example : Spelling [0xab, 0x01] [48, 120, 97, 98, 48, 49] := Spelling.prefixed
 example : hexDecode (pre true [48, 120, 65, 66]) = some [0xab] := by decide
